@@ -11,6 +11,9 @@ from . import maildirfs as M
 HEADER = ('From PV Require Import Base.Prelude MaildirFS.FS MaildirFS.UidList '
           'MaildirFS.Ops MaildirFS.Check.\n')
 
+XHEADER = ('From PV Require Import Base.Prelude MaildirFS.FS MaildirFS.UidList '
+           'MaildirFS.Ops MaildirFS.Check MaildirFS.Delete MaildirFS.DeleteCheck.\n')
+
 LAYOUT = {'++': 'LPlus', 'fs': 'LFs'}
 
 
@@ -96,6 +99,82 @@ def cmd_term(c, events, pm: M.PathMap) -> str:
     raise ValueError(c)
 
 
+def xcmd_terms(cmds, pm: M.PathMap) -> list[str]:
+    """The commands of a reference run as Delete.xcmd terms: DELETE with the
+    observed removal order, a delivery, the EXAMINE that follows deliveries
+    into its folder as the adopting scan, everything else as XC (Ops.cmd)."""
+    out = []
+    pending: dict = {}
+    for c in cmds:
+        cmd = _tup(c['cmd'])
+        evs = [tuple(e) for e in c['events']]
+        k = cmd[0]
+        if k == 'delete':
+            order = []
+            if c['status'] == 'OK':
+                for e in evs:
+                    if e[0] not in ('unlink', 'rmdir'):
+                        break
+                    sp = pm.split(e[1])
+                    if sp and sp[0] == 'dir' and list(sp[1]) == list(cmd[1]):
+                        break
+                    order.append(pm.term(e[1]) or '(PDir nil)')
+            out.append(f'XDelete {fname(cmd[1])} {T.lst(order)}')
+            pending.pop(tuple(cmd[1]), None)
+        elif k == 'deliver':
+            _k, parts, sub, info, cid = cmd
+            out.append(f'XDeliver {fname(parts)} {M.SUBS[sub]} {b(M.deliver_key(cid))} '
+                       f'{b(info)} {T.N(cid)}')
+            pending[tuple(parts)] = pending.get(tuple(parts), 0) + 1
+        elif k == 'examine' and pending.get(tuple(cmd[1])):
+            n = pending.pop(tuple(cmd[1]))
+            sp = [(e, pm.split(e[1])) for e in evs]
+            tmps = [s_[2].encode() for e, s_ in sp if e[0] == 'creat' and s_ and s_[0] == 'tmp']
+            texts = [bytes.fromhex(e[2]) for e, s_ in sp
+                     if e[0] == 'write' and s_ and s_[0] == 'tmp' and e[2] is not None]
+            ets = []
+            if texts:
+                lines = texts[0].replace(b'\r\n', b'\n').rstrip(b'\n').split(b'\n')[1:]
+                for line in lines[len(lines) - n:] if n <= len(lines) else []:
+                    e = re.search(rb' E(\S+)', line)
+                    t = re.search(rb' T(\S+)', line)
+                    ets.append(f'({b(e.group(1) if e else b"")}, {b(t.group(1) if t else b"")})')
+            out.append(f'XScan {fname(cmd[1])} {b(_pad(tmps, 1)[0])} {T.lst(ets)}')
+        else:
+            if k in ('select', 'examine'):
+                pending.pop(tuple(cmd[1]), None)
+            out.append('XC (' + cmd_term(cmd, evs, pm) + ')')
+    return out
+
+
+def xhistory_case(res: dict) -> tuple[str, list]:
+    """xchk_history case of a reference run; also the unknown events."""
+    ref = res['ref']
+    pm = M.PathMap('/B/u1', res['layout'])
+    items, unknown = [], []
+    terms = xcmd_terms(ref['cmds'], pm)
+    for c, t in zip(ref['cmds'], terms):
+        evs = [tuple(e) for e in c['events']]
+        ops, unk = ops_term(evs, pm)
+        unknown += unk
+        items.append(f'({t}, {ops}, {ack_term(c["status"])})')
+    return (f'({LAYOUT[res["layout"]]}, {M.enc_fs(map(tuple, ref["fs0"]))}, '
+            f'{T.lst(items)}, {M.enc_fs(map(tuple, ref["fs_final"]))})'), unknown
+
+
+def xcrash_case(res: dict) -> str:
+    ref = res['ref']
+    pm = M.PathMap('/B/u1', res['layout'])
+    cmds = xcmd_terms(ref['cmds'], pm)
+    dumps = []
+    for cr in res['crashes']:
+        dumps.append(f'({T.nat(cr["k"])}, false, {dump_term(cr["dump_raw"])})')
+        if 'dump_aged' in cr:
+            dumps.append(f'({T.nat(cr["k"])}, true, {dump_term(cr["dump_aged"])})')
+    return (f'({LAYOUT[res["layout"]]}, {M.enc_fs(map(tuple, ref["fs0"]))}, '
+            f'{T.lst("(" + c + ")" for c in cmds)}, {T.lst(dumps)})')
+
+
 def ack_term(status: str) -> str:
     return {'OK': 'AOk', 'NO': 'ANo'}.get(status, 'AUnmodelled')
 
@@ -125,7 +204,8 @@ def dump_term(d: dict) -> str:
             v = f'OServed {T.N(f["validity"])} {T.N(f["uidnext"])} {msgs}'
         else:
             err = [e for e in d['errors'] if e['folder'] == name]
-            v = 'OLocked' if err and err[0]['status'] == 'NO' else 'OBroken'
+            v = 'OLocked' if err and err[0]['status'] == 'NO' \
+                and 'TIMEOUT' in err[0].get('resp', 'TIMEOUT') else 'OBroken'
         views.append(f'({fname(name_parts(name))}, {v})')
     if d.get('lsub_status') == 'OK':
         lsub = '(Some ' + T.lst(b(n.encode('latin-1')) for n in d['lsub']) + ')'
@@ -250,14 +330,30 @@ class Shadow:
             self.subs.add(tuple(c[1]))
         elif k == 'unsubscribe':
             self.subs.discard(tuple(c[1]))
+        elif k == 'delete':
+            f = tuple(c[1])
+            kids = [g for g in self.folders if g[:len(f)] == f and g != f]
+            if f and f in self.folders and not (self.layout == 'fs' and kids):
+                del self.folders[f]
+                self.stale.discard(f)
+        elif k == 'deliver':
+            f = self.folders[tuple(c[1])]
+            f['msgs'][f['next']] = (set(c[3][2:]) if c[3].startswith('2,') else set(), c[4])
+            f['next'] += 1
+
+    layout = None
 
 
-def gen_history(rng, n: int, *, weights: dict | None = None) -> list:
-    """A random history of n commands on one connection, mostly valid."""
+def gen_history(rng, n: int, *, weights: dict | None = None, layout: str | None = None,
+                failing_delete: bool = False) -> list:
+    """A random history of n commands on one connection, mostly valid.
+    'delete' and 'deliver' (an external delivery, always followed by the
+    EXAMINE that adopts the file) only appear when given a weight."""
     sh = Shadow()
+    sh.layout = layout
     w = {'append': 5, 'select': 3, 'examine': 1, 'store': 4, 'copy': 3, 'move': 3,
          'expunge': 2, 'check': 2, 'noop': 1, 'close': 1, 'create': 3, 'rename': 2,
-         'subscribe': 2, 'unsubscribe': 1}
+         'subscribe': 2, 'unsubscribe': 1, 'delete': 0, 'deliver': 0}
     if weights:
         w.update(weights)
     out = []
@@ -338,10 +434,52 @@ def gen_history(rng, n: int, *, weights: dict | None = None) -> list:
             if k == 'unsubscribe' and sh.subs and rng.random() < 0.8:
                 pool = sorted(sh.subs)
             c = (k, list(rng.choice(pool)))
+        elif k == 'delete':
+            def kids(f):
+                return [g for g in folders if g[:len(f)] == f and g != f]
+            cand = [f for f in folders if f and not (sel and sel[0] == f)
+                    and (layout is not None or not kids(f))
+                    and f not in sh.retired]
+            r = rng.random()
+            if r < 0.06:
+                c = ('delete', [])                      # INBOX: refused
+            elif r < 0.14 and (layout == 'fs' or failing_delete):
+                c = ('delete', ['nonexistent'])
+            elif cand:
+                nonempty = [f for f in cand if sh.folders[f]['msgs']]
+                c = ('delete', list(rng.choice(nonempty if nonempty and rng.random() < 0.6
+                                               else cand)))
+            else:
+                continue
+        elif k == 'deliver':
+            if len(out) + 2 > n:
+                continue
+            f = rng.choice(folders)
+            # (a name without info part is adopted alike — fixed histories — but a
+            # later COPY normalises it to ':2,', which Ops.copy_ops does not model)
+            sub, info = ('new', '2,') if rng.random() < 0.6 else \
+                rng.choice([('cur', '2,S'), ('cur', '2,'), ('new', '2,F'), ('cur', '2,FS')])
+            m = 1      # one pending file per folder: the adoption order of several is os.listdir's
+            for _ in range(m):
+                c = ('deliver', list(f), sub, info, sh.new_cid())
+                sh.apply(c)
+                out.append(c)
+            c = ('examine', list(f))
         if c is None:
             continue
         sh.apply(c)
         out.append(c)
+        if c[0] == 'delete' and c[1] and c[1] != ['nonexistent'] and rng.random() < 0.6 \
+                and len(out) + 2 <= n and tuple(c[1]) not in sh.folders:
+            # DELETE then CREATE of the same name, then a message: no uid may
+            # come back under the old UIDVALIDITY
+            for extra in (('create', list(c[1])),
+                          ('append', list(c[1]), [('', sh.new_cid())])):
+                parent = tuple(extra[1][:-1])
+                if parent and parent not in sh.folders:
+                    break
+                sh.apply(extra)
+                out.append(extra)
         if c[0] == 'expunge' and rng.random() < 0.5 and len(out) + 3 <= n:
             # records dropped by CHECK, then new messages: uids must not come back
             f = list(sh.sel[0])
@@ -414,6 +552,8 @@ def durability_failures(res: dict, cr: dict) -> list[tuple[str, str, dict]]:
     for f in prev['list']:
         if ren is None and f not in nxt['list']:
             continue
+        if inflight and inflight[0] == 'delete' and M.mbx_name(inflight[1]).decode() == f:
+            continue      # being deleted (it may stay listed as the parent of a child)
         got = [g for g in names(f) if g in rec['list']]
         if not got:
             fails.append(('creations_persist', f'mailbox {f} is no longer listed after a kill '
@@ -479,6 +619,15 @@ def durability_failures(res: dict, cr: dict) -> list[tuple[str, str, dict]]:
     if a < len(cmds):
         new_bodies |= {m['body'] for f in nxt['folders'].values() for m in f['msgs']}
     known_bodies = {v[1] for v in pm.values()} | new_bodies
+    # files a delivery agent dropped (or was dropping) into the store
+    delivered = {c['cmd'][4] for c in cmds[:a + 1] if c['cmd'][0] == 'deliver'}
+    # -- a mailbox that is listed is either served or refused, never a server bug
+    for e in rec['errors']:
+        if e['status'] in ('BYE', 'NONE'):
+            fails.append(('served_after_restart',
+                          f'after a kill at operation {cr["k"]} (during {inflight}) the listed '
+                          f'mailbox {e["folder"]} ends the connection: {e["resp"][:60]!r} {e.get("exc")}',
+                          {'kind': 'serverbug_after_crash'}))
     seen: dict = {}
     for d in dumps[:a + 2]:
         for name, f in d['folders'].items():
@@ -489,7 +638,7 @@ def durability_failures(res: dict, cr: dict) -> list[tuple[str, str, dict]]:
         if len(set(uids)) != len(uids):
             fails.append(('uid_unique', f'{name} serves a uid twice: {uids}', {'kind': 'dup_uid'}))
         for m in f['msgs']:
-            if m['body'] not in known_bodies:
+            if m['body'] not in known_bodies and m['cid'] not in delivered:
                 fails.append(('served_after_restart',
                               f'{name} uid {m["uid"]} has content never stored (cid {m["cid"]})',
                               {'kind': 'phantom_message'}))
@@ -540,6 +689,22 @@ def reference_failures(res: dict) -> list[tuple[str, str, dict]]:
         if i == 0:
             continue
         prev, cmd = dumps[i - 1], _tup(ref['cmds'][i - 1]['cmd'])
+        if cmd[0] == 'delete' and ref['cmds'][i - 1]['status'] == 'OK':
+            name = M.mbx_name(cmd[1]).decode()
+            if name in d['folders']:
+                fails.append(('creations_persist', f'{name} is still listed after DELETE was '
+                              f'acknowledged', {'kind': 'delete_not_done'}))
+            lost = sorted(set(prev['lsub']) - set(d['lsub']))
+            if lost:
+                fails.append(('subscriptions_persist', f'DELETE {name} removed the '
+                              f'subscription(s) {lost}', {'kind': 'delete_unsubscribed'}))
+            def view(x):
+                return x and (x['validity'], x['uidnext'],
+                              [(m_['uid'], m_['flags'], m_['body']) for m_ in x['msgs']])
+            for other, f in prev['folders'].items():
+                if other != name and view(d['folders'].get(other)) != view(f):
+                    fails.append(('served_after_restart', f'DELETE {name} changed mailbox {other}',
+                                  {'kind': 'delete_not_isolated'}))
         for name, f in prev['folders'].items():
             g = d['folders'].get(name)
             if g is None or g['validity'] != f['validity']:
